@@ -93,10 +93,25 @@ class EmitExtract(AcceptExtract):
             el = self.sval_block(x["else"], e2) if x.get("else") is not None else []
             return [self.mk_if(c, t, el)]
         if k == "match":
+            arms = x.get("arms") or []
+            # match opt { Some(v) => A, None => B } is if let Some(v) = opt { A } else { B }
+            if len(arms) == 2:
+                def pk(a_):
+                    p_ = a_.get("pat") or {}
+                    while p_.get("k") == "pref":
+                        p_ = p_.get("pat") or {}
+                    return (p_.get("path") or "").rsplit("::", 1)[-1] if p_.get("k") in ("pts", "ppath") else ("_" if p_.get("k") == "_" else "")
+                kinds = [pk(a_) for a_ in arms]
+                if "Some" in kinds and (("None" in kinds) or ("_" in kinds)):
+                    si = kinds.index("Some")
+                    e1, e2 = dict(env), dict(env)
+                    c_ = self.cond({"k": "letx", "pat": arms[si]["pat"], "init": x["e"]}, e1)
+                    t_ = self.sval_block(arms[si]["body"], e1)
+                    el_ = self.sval_block(arms[1 - si]["body"], e2)
+                    return [self.mk_if(c_, t_, el_)]
             items = []
             negs = TRUE
             chain = None
-            arms = x.get("arms") or []
             out = []
             for arm in arms:
                 ea = dict(env)
